@@ -80,6 +80,10 @@ def correspond(ctx, scale):
         L.append(('lfq', lambda: LFQ(codebook_size=8, dim=3, spherical=True), 3, None))
         L.append(('rfsq', lambda: ResidualFSQ(levels=[4, 3], num_quantizers=3, dim=5), 5, None))
         L.append(('rlfq', lambda: ResidualLFQ(dim=5, codebook_size=8, num_quantizers=2), 5, None))
+        # without projections: these accept half / bfloat16 inputs (mixed-precision histories must not touch the non-learned buffers either)
+        L.append(('rfsq', lambda: ResidualFSQ(levels=[8, 5, 5, 3], num_quantizers=3, dim=4), 4, None))
+        L.append(('fsq', lambda: FSQ([8, 5, 3]), 3, None))
+        L.append(('lfq', lambda: LFQ(codebook_size=8, dim=3), 3, None))
         return L
 
     reps = (2 if not ctx.thorough else 10) * scale
@@ -97,12 +101,21 @@ def correspond(ctx, scale):
             eff0 = mod.codebook.detach().clone() if kind == 'simvq' else None
             stepped = False
             for oi in range(rng.choice([6, 10, 16])):
-                op = rng.choice(['train_fwd', 'eval_fwd', 'backward', 'opt', 'fixed'] + (['loss_fwd', 'loss_fwd'] if kind == 'rpq' else []))
+                op = rng.choice(['train_fwd', 'eval_fwd', 'backward', 'opt', 'fixed'] + (['loss_fwd', 'loss_fwd'] if kind == 'rpq' else []) + (['lowp_fwd', 'lowp_fwd'] if not params else []))
                 if kind == 'rpq' and oi == 0 and rep % 2 == 0:
                     op = 'loss_fwd'            # the loss path as the very first call of a fresh module
                 trace.append(op)
                 evaluations += 1
                 try:
+                    if op == 'lowp_fwd':
+                        # a low-precision call (autocast-style): legal for the projection-free scalar quantizers; a dtype error is not our subject
+                        mod.train(rng.random() < 0.5)
+                        try:
+                            with torch.no_grad():
+                                mod((torch.randn(2, 5, dim) * 0.7).to(rng.choice([torch.bfloat16, torch.float16])))
+                            dist['low_precision_calls'] = dist.get('low_precision_calls', 0) + 1
+                        except (RuntimeError, TypeError, AssertionError):
+                            pass
                     if op == 'loss_fwd':
                         # RandomProjectionQuantizer(x, indices=...) returns the cross-entropy loss; it must not touch the random codebook either
                         mod.train(rng.random() < 0.8)
